@@ -49,8 +49,11 @@ type vfTWCase struct {
 
 func vfGenTW(t *rapid.T) vfTWCase {
 	c := vfTWCase{}
-	c.FrameSize = rapid.OneOf(rapid.SampledFrom([]int{8, 16, 640, 39040, 4096, 4097, 32768}), rapid.IntRange(8, 39040)).Draw(t, "framesize")
+	c.FrameSize = rapid.OneOf(rapid.SampledFrom([]int{8, 16, 640, 39040, 4096, 4097, 32768, 65535, 65536, 65537, 70000, 655360}), rapid.IntRange(8, 39040)).Draw(t, "framesize")
 	c.Frames = rapid.OneOf(rapid.SampledFrom([]int{0, 1, 255, 256, 257, 512, 700, 1500}), rapid.IntRange(0, 1500)).Draw(t, "frames")
+	if c.FrameSize > 40000 && c.Frames*c.FrameSize > 48<<20 {
+		c.Frames = (48 << 20) / c.FrameSize // sizes beyond 16 bits, up to a 640x512 Boson frame: bounded volume
+	}
 	if c.FrameSize > 8000 && c.Frames > 900 {
 		c.Frames = 900
 	}
@@ -219,7 +222,7 @@ func vfWriterGoroutines() int {
 
 func vfRunTW(c vfTWCase) *kit.Result {
 	r := &kit.Result{}
-	if c.FrameSize < 4 || c.FrameSize > 400000 || c.Frames < 0 || c.Frames > 5000 || c.TailBytes < 0 || c.TailBytes >= c.FrameSize || c.Procs < 1 || c.Procs > 64 || c.Burners < 0 || c.Burners > 8 || c.FPS < 1 || c.FPS > 255 {
+	if c.FrameSize < 4 || c.FrameSize > 700000 || c.Frames < 0 || c.Frames > 5000 || c.TailBytes < 0 || c.TailBytes >= c.FrameSize || c.Procs < 1 || c.Procs > 64 || c.Burners < 0 || c.Burners > 8 || c.FPS < 1 || c.FPS > 255 {
 		r.Failf("malformed case")
 		return r
 	}
@@ -441,7 +444,7 @@ func vfRunTW(c vfTWCase) *kit.Result {
 
 func TestVF_C18(t *testing.T) {
 	kit.Drive(t, "C18", "TestVF_C18",
-		"generated: camera header with FrameSize 8..39040 (and Boson-sized 163840), 0-1500 frames (a class of streams exceeds the writer's 32 MiB buffer) whose bytes are a function of (seed, frame number), optionally a final incomplete frame, sender chunking (1 byte .. 100 kB writes spanning frame boundaries) and pauses, GOMAXPROCS in {1,2,4,16}, 0-3 CPU-burning goroutines; the real handleConn of thermal-writer on a pipe, built with the race detector. Oracle (round-trip): after handleConn has returned and the writer goroutine has exited (seen in the goroutine dump), an independent CPTR parser (magic, version 2, 'H' section with model, brand, fps, resolution, compression 0, device name/id, timestamp; 'F' sections with exactly one FrameSize field) recovers exactly the complete frames sent, once, in order, byte for byte, with no trailing bytes; zero race reports. Non-trivial: more than 256 frames (every buffer recycled) and a logged write backlog (the writer lagged the reader by more than 10 frames); the class backlog>=200 counts the cases in which at least 200 of the 256 buffers were in flight.",
+		"generated: camera header with FrameSize 8..39040 (and 65535-70000, Boson-sized 163840 and 655360), 0-1500 frames (a class of streams exceeds the writer's 32 MiB buffer) whose bytes are a function of (seed, frame number), optionally a final incomplete frame, sender chunking (1 byte .. 100 kB writes spanning frame boundaries) and pauses, GOMAXPROCS in {1,2,4,16}, 0-3 CPU-burning goroutines; the real handleConn of thermal-writer on a pipe, built with the race detector. Oracle (round-trip): after handleConn has returned and the writer goroutine has exited (seen in the goroutine dump), an independent CPTR parser (magic, version 2, 'H' section with model, brand, fps, resolution, compression 0, device name/id, timestamp; 'F' sections with exactly one FrameSize field) recovers exactly the complete frames sent, once, in order, byte for byte, with no trailing bytes; zero race reports. Non-trivial: more than 256 frames (every buffer recycled) and a logged write backlog (the writer lagged the reader by more than 10 frames); the class backlog>=200 counts the cases in which at least 200 of the 256 buffers were in flight.",
 		vfGenTW, vfRunTW)
 }
 
